@@ -97,6 +97,12 @@ CHECKS = {
         "text": "Contrib.tla treats the gross wage as a behaviour and states the statutory shape as step properties: non-negative, zero for marginal employment, non-decreasing, constant above the assessment ceiling, no jump except at the mini-job threshold (the transition-zone contributions meet the regular ones at the upper boundary), employee + employer = total in the zone. TLC proves regime order and boundary inclusiveness on abstract parameters; for every change date of the contribution parameters and east/west x children x age branch one vectorised run over a wage grid plus every statutory boundary +-1 cent is validated step by step, including that the observed mini-job / transition-zone flags equal the regime.",
         "note": "Change dates since 2015 (quick: latest 4 + seeded 4; thorough since 2003-04), 2-4 branches each; boundaries read from the environment (C07 binds their resolution); slope bound 1 for NoJump; regular employees only.",
     },
+    "C17": {
+        "level": "model_checking",
+        "technique": "TLA+ transcription of the priority rules (Priority.tla) model-checked exhaustively on a small grid (MC_Priority); every state replayed on the real rules with intermediates supplied as data; full simulations validated per household by TLC (Trace_Priority)",
+        "text": "Priority.tla transcribes the priority checks, the ALG II / Kinderzuschlag / Wohngeld payment rules and the Wohngeld part-household split; TLC proves on every household of up to two needs units with amounts 0..2 (every break-even equality occurs) that ALG II never coincides with Wohngeld or Kinderzuschlag, that Grundsicherung excludes the others and that Kinderzuschlag is only paid when it covers the need alone or with Wohngeld. Every state is replayed on the real rules by supplying need, income, entitlements and pensioner facts as data; full simulations of dressed households (wage grid across the break-even region, several needs units per household, pensioner mixes) are checked per household for the same invariants and for 'one part-household per needs unit'.",
+        "note": "Grid amounts are multiples of 100 EUR; two-unit states sampled in quick; full-system runs are seeded samples at 3 (thorough 10) dates; the evidence records how many persons actually received each benefit (vacuity guard).",
+    },
 }
 
 NOT_APPLICABLE = {}
